@@ -47,6 +47,8 @@ CONSTANTS NHosts,        \* hosts 1..NHosts; the load-balancing plan is <<1, ..,
           CLs,           \* what the policy may return as consistency: a level (0 = ANY, 1 = ONE, 4 = QUORUM, ..) or NoCL = None
           MaxRetries,    \* the decision oracle grants at most this many retries
           MaxEpoch,      \* 1, or 2 to include one start_fetching_next_page
+          PrepChoices,   \* subset of {"none", "yes", "no"}: a SimpleStatement, or a BoundStatement whose PreparedStatement is /
+                         \* is not flagged idempotent (the executed statement's own flag is `idem` in every case)
           IdChoices,     \* subset of {"default", "zero", "one"}: stream ids the idle pool connections hand out (see `ids`)
           TimeChoices,   \* set of codes 100 * timeout + speculative delay (virtual seconds, e.g. 502 = timeout 5, delay 2);
                          \* 0 = untimed: the timeout is far beyond anything that happens and every delay fits
@@ -66,6 +68,7 @@ VARIABLES pool,       \* host -> "healthy" | "missing" | "shutdown" | "busy" | "
           ids,        \* id space of every pool connection: "default" (as left by the handshake: ids >= 1, never re-used in
                       \* a run), "zero" (the first attempt on a connection gets stream id 0, never re-used), "one" (a single
                       \* recycled id: every attempt gets stream id 0)
+          prep,       \* "none" | "yes" | "no" (see PrepChoices); only the executed statement's flag gates speculation
           tm,         \* <<request timeout, delay of the speculative execution plan>> (see TimeChoices)
           started,
           plan,       \* remaining query plan (the iterator)
@@ -86,6 +89,8 @@ VARIABLES pool,       \* host -> "healthy" | "missing" | "shutdown" | "busy" | "
           epoch,      \* 1 = execution, 2 = next page fetch
           lastConn,   \* host of self._connection (last successful borrow) or 0
           reqAtt,     \* attempt designated by self._req_id (last send made by send_request) or 0
+          refq,       \* executor tasks refresh_schema_and_set_result(.., connection of host h): sequence of hosts
+          rechecks,   \* the _attempts argument carried by a "recheck" timer (PYTHON-853 re-check of _on_timeout)
           now,        \* virtual time since _start_time (only timer firings let time pass; 0 when untimed)
           due,        \* when the live timer fires, on the same scale (0 when there is none / untimed)
           unfit,      \* history: _start_timer was offered a speculative execution whose delay did not fit
@@ -94,7 +99,7 @@ VARIABLES pool,       \* host -> "healthy" | "missing" | "shutdown" | "busy" | "
           nhaCls,     \* what NoHostAvailable.errors must list: host -> class (or "none"), fixed when it is raised
           act         \* last action, for replay
 
-vars == <<pool, idem, target, ids, tm, started, now, due, unfit, pend, nhaCls, plan, tried, errs, att, sentLog, policyLog, retries, cl, specLeft,
+vars == <<pool, idem, target, ids, tm, prep, started, refq, rechecks, now, due, unfit, pend, nhaCls, plan, tried, errs, att, sentLog, policyLog, retries, cl, specLeft,
           timer, final, paging, cb, eb, dlv, queue, epoch, lastConn, reqAtt, act>>
 
 A(name, a, k, d, c) == [name |-> name, a |-> a, k |-> k, d |-> d, c |-> c]
@@ -102,11 +107,11 @@ SeqSet(s) == {s[i] : i \in 1..Len(s)}
 
 (* ------------------------------------------------------------------------ *)
 (* The future's state as a record, updated functionally inside one action.  *)
-S == [pool |-> pool, plan |-> plan, tried |-> tried, errs |-> errs, att |-> att, sentLog |-> sentLog,
+S == [tm |-> tm, ids |-> ids, pool |-> pool, plan |-> plan, tried |-> tried, errs |-> errs, att |-> att, sentLog |-> sentLog,
       policyLog |-> policyLog, retries |-> retries, cl |-> cl, specLeft |-> specLeft, timer |-> timer,
       final |-> final, paging |-> paging, cb |-> cb, eb |-> eb, dlv |-> dlv, queue |-> queue,
       epoch |-> epoch, lastConn |-> lastConn, reqAtt |-> reqAtt, now |-> now, due |-> due, unfit |-> unfit,
-      pend |-> pend, nhaCls |-> nhaCls]
+      pend |-> pend, nhaCls |-> nhaCls, rechecks |-> rechecks, refq |-> refq]
 
 Set(s) ==
     /\ pool' = s.pool /\ plan' = s.plan /\ tried' = s.tried /\ errs' = s.errs /\ att' = s.att
@@ -114,7 +119,7 @@ Set(s) ==
     /\ specLeft' = s.specLeft /\ timer' = s.timer /\ final' = s.final /\ paging' = s.paging
     /\ cb' = s.cb /\ eb' = s.eb /\ dlv' = s.dlv /\ queue' = s.queue /\ epoch' = s.epoch
     /\ lastConn' = s.lastConn /\ reqAtt' = s.reqAtt
-    /\ now' = s.now /\ due' = s.due /\ unfit' = s.unfit /\ pend' = s.pend /\ nhaCls' = s.nhaCls
+    /\ refq' = s.refq /\ rechecks' = s.rechecks /\ now' = s.now /\ due' = s.due /\ unfit' = s.unfit /\ pend' = s.pend /\ nhaCls' = s.nhaCls
 
 (* _query's error entry for a host whose pool cannot serve the request (compared by class) *)
 ErrClass(c) == CASE c = "missing"  -> "ConnectionException"        \* no pool entry
@@ -156,17 +161,35 @@ FSend(s, h, viaPlan) ==
 FSkip(s, h) ==
     [s EXCEPT !.errs = [@ EXCEPT ![h] = ErrClass(s.pool[h])],
               !.pool = [@ EXCEPT ![h] = IF @ = "failing" THEN "noconn" ELSE @],
-              !.lastConn = IF s.pool[h] \in {"failing", "unwritable"} THEN h ELSE @]
+              !.lastConn = IF s.pool[h] \in {"failing", "unwritable"} THEN h ELSE @,
+              \* borrow_connection(timeout=2.0) on a saturated connection blocks the caller for 2 s (tracked when timed)
+              !.now = IF s.pool[h] = "busy" /\ s.tm[1] > 0 THEN @ + 2 ELSE @]
 
 (* send_request: resume the plan iterator until one send succeeds; NoHostAvailable(errors) when it is  *)
 (* exhausted and error_no_hosts.                                                                       *)
+(* _on_timeout(_attempts = n).  PYTHON-853: while the future holds no connection yet the decision is put off by  *)
+(* 10 ms, at most 3 times (the count travels with the timer); then - or at once when there is a connection - the  *)
+(* request designated by (_connection, _req_id) is deregistered if it is still there and the future fails with    *)
+(* OperationTimedOut.  Stream ids are not modelled: with ids that are never re-used the pair designates the       *)
+(* attempt that set _req_id; with the single recycled id 0 the attempt currently registered on _connection.       *)
+FOnTimeout(s, n) ==
+    IF s.lastConn = 0 /\ n < 3
+    THEN [s EXCEPT !.timer = "recheck", !.rechecks = n + 1, !.due = s.now]       \* 10 ms: below the clock's resolution
+    ELSE LET dereg == IF s.ids = "one"
+                      THEN IF s.reqAtt # 0 THEN {a \in s.att : s.sentLog[a].host = s.lastConn} ELSE {}
+                      ELSE IF s.reqAtt \in s.att /\ s.sentLog[s.reqAtt].host = s.lastConn THEN {s.reqAtt} ELSE {} IN
+         FComplete([s EXCEPT !.att = @ \ dereg], "OperationTimedOut")
+
 RECURSIVE FLoop(_, _)
 FLoop(s, errorNoHosts) ==
     IF s.plan = <<>>
     THEN IF errorNoHosts THEN FComplete(s, "NoHostAvailable") ELSE s
     ELSE LET h  == Head(s.plan)
              s1 == [s EXCEPT !.plan = Tail(@)] IN
-         IF s.pool[h] = "healthy" THEN FSend(s1, h, TRUE) ELSE FLoop(FSkip(s1, h), errorNoHosts)
+         IF s.pool[h] = "healthy" THEN FSend(s1, h, TRUE)
+         ELSE LET s2 == FSkip(s1, h) IN
+              \* "if self.timeout is not None and time.time() - self._start_time > self.timeout: self._on_timeout()"
+              IF s2.tm[1] > 0 /\ s2.now > s2.tm[1] THEN FOnTimeout(s2, 0) ELSE FLoop(s2, errorNoHosts)
 
 (* _start_timer when _timer is None: next_execution() is consumed even when its delay does not fit into   *)
 (* the time that remains; then (and when the plan is exhausted) the request timeout is armed.             *)
@@ -181,10 +204,9 @@ FArm(s) == IF s.specLeft > 0 /\ Fits(s)
 Max(a, b) == IF a > b THEN a ELSE b
 
 (* ------------------------------------------------------------------------ *)
-InitWith(pl, id, tg, sp, im, t) ==
-    /\ pool = pl /\ idem = id /\ target = tg /\ specLeft = sp /\ ids = im /\ tm = t
-    /\ (t[1] > 0 => \A h \in Hosts : pl[h] # "busy")       \* a blocking borrow lets time pass: untimed runs only
-    /\ now = 0 /\ due = 0 /\ unfit = FALSE /\ pend = NoPend /\ nhaCls = [h \in Hosts |-> "none"]
+InitWith(pl, id, tg, sp, im, t, pr) ==
+    /\ pool = pl /\ idem = id /\ target = tg /\ specLeft = sp /\ ids = im /\ tm = t /\ prep = pr
+    /\ refq = <<>> /\ rechecks = 0 /\ now = 0 /\ due = 0 /\ unfit = FALSE /\ pend = NoPend /\ nhaCls = [h \in Hosts |-> "none"]
     /\ started = FALSE
     /\ plan = <<>> /\ tried = <<>> /\ errs = [h \in Hosts |-> "none"] /\ att = {}
     /\ sentLog = <<>> /\ policyLog = <<>> /\ retries = 0 /\ cl = InitCL
@@ -196,7 +218,7 @@ InitWith(pl, id, tg, sp, im, t) ==
 PoolVectors == {f \in [Hosts -> PoolConds \cup {"healthy"}] : Cardinality({h \in Hosts : f[h] # "healthy"}) <= MaxBad}
 
 Init == \E pl \in PoolVectors, id \in IdemChoices, tg \in TargetChoices, sp \in SpecChoices, im \in IdChoices,
-           t \in TimeChoices : InitWith(pl, id, tg, sp, im, <<t \div 100, t % 100>>)
+           t \in TimeChoices, pr \in PrepChoices : InitWith(pl, id, tg, sp, im, <<t \div 100, t % 100>>, pr)
 
 (* Session.execute_async: _create_response_future (plan, timer; a speculative plan only for           *)
 (* idempotent statements), callbacks registered by a request-init listener, send_request().           *)
@@ -207,7 +229,7 @@ Start ==
                            !.specLeft = IF idem THEN @ ELSE 0] IN
        Set(FLoop(FArm(s0), TRUE))
     /\ act' = A("Start", 0, "-", "-", 0)
-    /\ UNCHANGED <<idem, target, ids, tm>>
+    /\ UNCHANGED <<idem, target, ids, tm, prep>>
 
 (* _set_result, ResultMessage: rows (paging state or not) / void *)
 AnsOk(a, k) ==
@@ -217,7 +239,27 @@ AnsOk(a, k) ==
                            !.paging = IF k = "void" THEN @ ELSE (k = "more")] IN
        Set(FComplete(s1, IF k = "void" THEN "empty" ELSE "rows"))
     /\ act' = A("AnsOk", a, k, "-", 0)
-    /\ UNCHANGED <<idem, target, ids, tm, started>>
+    /\ UNCHANGED <<idem, target, ids, tm, prep, started>>
+
+(* _set_result, RESULT kind SCHEMA_CHANGE: the outcome is published by an executor task after the schema        *)
+(* agreement wait / refresh on the answering connection                                                         *)
+AnsSchema(a) ==
+    /\ a \in att /\ pend.host = 0
+    /\ final # "unset" => Late
+    /\ Set([S EXCEPT !.att = @ \ {a}, !.refq = Append(@, sentLog[a].host)])
+    /\ act' = A("AnsSchema", a, "schema", "-", 0)
+    /\ UNCHANGED <<idem, target, ids, tm, prep, started>>
+
+(* refresh_schema_and_set_result (executor): whether the wait / refresh succeeds or raises (ok = FALSE: the      *)
+(* connection was closed meanwhile, wait_for_responses raises ConnectionShutdown), finally: _set_final_result(None) *)
+RefreshTask(ok) ==
+    /\ refq # <<>> /\ pend.host = 0
+    /\ LET h  == Head(refq)
+           s1 == [S EXCEPT !.refq = Tail(@),
+                           !.pool = [@ EXCEPT ![h] = IF ok \/ @ # "healthy" THEN @ ELSE "failing"]] IN
+       Set(FComplete(s1, "empty"))
+    /\ act' = A("RefreshTask", 0, IF ok THEN "ok" ELSE "raises", "-", 0)
+    /\ UNCHANGED <<idem, target, ids, tm, prep, started>>
 
 (* what the oracle may answer now *)
 DecSet == IF retries >= MaxRetries
@@ -245,7 +287,7 @@ AnsErr(a, k, d, c) ==
                    [] d = "IGNORE"  -> FComplete(s1, "empty") IN
        Set(IF s2.pend.host # 0 THEN s2 ELSE [s2 EXCEPT !.errs = [@ EXCEPT ![h] = k]])
     /\ act' = A("AnsErr", a, k, d, c)
-    /\ UNCHANGED <<idem, target, ids, tm, started>>
+    /\ UNCHANGED <<idem, target, ids, tm, prep, started>>
 
 (* the rest of _handle_retry_decision after session.submit(self._retry_task, ..): self._errors[host] = ...  *)
 (* Executor tasks (RetryTask) may run in between; other loop-thread callbacks may not.                      *)
@@ -253,7 +295,7 @@ StoreErr ==
     /\ pend.host # 0
     /\ Set([S EXCEPT !.errs = [@ EXCEPT ![pend.host] = pend.kind], !.pend = NoPend])
     /\ act' = A("StoreErr", 0, "-", "-", 0)
-    /\ UNCHANGED <<idem, target, ids, tm, started>>
+    /\ UNCHANGED <<idem, target, ids, tm, prep, started>>
 
 (* _set_result, any other ErrorMessage: raised directly *)
 AnsFatal(a, k) ==
@@ -261,29 +303,29 @@ AnsFatal(a, k) ==
     /\ final # "unset" => Late
     /\ Set(FComplete([S EXCEPT !.att = @ \ {a}], k))
     /\ act' = A("AnsFatal", a, k, "-", 0)
-    /\ UNCHANGED <<idem, target, ids, tm, started>>
+    /\ UNCHANGED <<idem, target, ids, tm, prep, started>>
 
 (* _on_speculative_execute (timer callback) *)
 SpecFire ==
     /\ timer = "spec" /\ pend.host = 0
     /\ Set(FArm(FLoop([S EXCEPT !.timer = "none", !.now = Max(now, due), !.due = 0], FALSE)))
     /\ act' = A("SpecFire", 0, "-", "-", 0)
-    /\ UNCHANGED <<idem, target, ids, tm, started>>
+    /\ UNCHANGED <<idem, target, ids, tm, prep, started>>
 
-(* _on_timeout (timer callback): deregister the request designated by (_connection, _req_id) if it is *)
-(* still there, then OperationTimedOut.  Stream ids are not modelled: with ids that are never re-used   *)
-(* the pair designates the attempt that set _req_id; with the single recycled id 0 it designates the    *)
-(* attempt currently registered on _connection.                                                         *)
+(* the request timeout fires: _on_timeout() *)
 TimeoutFire ==
     /\ Timeouts
     /\ timer = "timeout" /\ pend.host = 0
-    /\ LET dereg == IF ids = "one"
-                    \* every attempt carries stream id 0 = _req_id: whatever is registered on _connection is popped
-                    THEN IF reqAtt # 0 THEN {a \in att : sentLog[a].host = lastConn} ELSE {}
-                    ELSE IF reqAtt \in att /\ sentLog[reqAtt].host = lastConn THEN {reqAtt} ELSE {} IN
-       Set(FComplete([S EXCEPT !.att = @ \ dereg, !.now = Max(now, due)], "OperationTimedOut"))
+    /\ Set(FOnTimeout([S EXCEPT !.now = Max(now, due)], 0))
     /\ act' = A("TimeoutFire", 0, "-", "-", 0)
-    /\ UNCHANGED <<idem, target, ids, tm, started>>
+    /\ UNCHANGED <<idem, target, ids, tm, prep, started>>
+
+(* the 10 ms re-check timer fires: partial(self._on_timeout, _attempts = rechecks) *)
+RecheckFire ==
+    /\ timer = "recheck" /\ pend.host = 0
+    /\ Set(FOnTimeout(S, rechecks))
+    /\ act' = A("RecheckFire", 0, "-", "-", 0)
+    /\ UNCHANGED <<idem, target, ids, tm, prep, started>>
 
 (* _retry_task (executor) *)
 RetryTask ==
@@ -297,13 +339,13 @@ RetryTask ==
        ELSE IF t.reuse /\ pool[t.host] = "healthy" THEN Set(FSend(s1, t.host, FALSE))
        ELSE Set(FLoop(IF t.reuse THEN FSkip(s1, t.host) ELSE s1, TRUE))
     /\ act' = A("RetryTask", 0, "-", "-", 0)
-    /\ UNCHANGED <<idem, target, ids, tm, started>>
+    /\ UNCHANGED <<idem, target, ids, tm, prep, started>>
 
 (* start_fetching_next_page (client thread, after the page was delivered).  Scope: no attempt of the  *)
 (* previous page outstanding and no retry task queued.  INTENDED: a fresh timer for the page fetch.    *)
 StartNextPage ==
     /\ started /\ final = "rows" /\ paging /\ epoch < MaxEpoch
-    /\ att = {} /\ queue = <<>> /\ pend.host = 0
+    /\ att = {} /\ queue = <<>> /\ refq = <<>> /\ pend.host = 0
     /\ LET s0 == [S EXCEPT !.plan = IF target # 0 THEN <<target>> ELSE FullPlan,
                            !.final = "unset",
                            !.epoch = @ + 1,
@@ -311,27 +353,31 @@ StartNextPage ==
                            !.timer = "none"] IN
        Set(FLoop(FArm(s0), TRUE))
     /\ act' = A("StartNextPage", 0, "-", "-", 0)
-    /\ UNCHANGED <<idem, target, ids, tm, started>>
+    /\ UNCHANGED <<idem, target, ids, tm, prep, started>>
 
 Next ==
     \/ Start
     \/ \E a \in att :
-          \/ \E k \in OkKinds : AnsOk(a, k)
+          \/ \E k \in OkKinds \ {"schema"} : AnsOk(a, k)
           \/ \E k \in ErrKinds : \E dc \in DecSet : AnsErr(a, k, dc[1], dc[2])
           \/ \E k \in FatalKinds : AnsFatal(a, k)
+          \/ ("schema" \in OkKinds /\ AnsSchema(a))
     \/ StoreErr
+    \/ \E ok \in BOOLEAN : RefreshTask(ok)
     \/ SpecFire
     \/ TimeoutFire
+    \/ RecheckFire
     \/ RetryTask
     \/ StartNextPage
 
 Spec == Init /\ [][Next]_vars
-FairSpec == Spec /\ WF_vars(Start) /\ WF_vars(StoreErr) /\ WF_vars(SpecFire) /\ WF_vars(TimeoutFire)
+FairSpec == Spec /\ WF_vars(Start) /\ WF_vars(StoreErr) /\ WF_vars(SpecFire) /\ WF_vars(TimeoutFire) /\ WF_vars(RecheckFire)
 
 -----------------------------------------------------------------------------
 TypeOK ==
     /\ att \subseteq 1..Len(sentLog)
-    /\ timer \in {"none", "spec", "timeout", "stale"}
+    /\ timer \in {"none", "spec", "timeout", "recheck", "stale"}
+    /\ rechecks \in 0..3
     /\ retries \in 0..(MaxRetries + NHosts + 3)
     /\ epoch \in 1..MaxEpoch
     /\ lastConn \in 0..NHosts /\ reqAtt \in 0..Len(sentLog)
@@ -350,12 +396,13 @@ Inv_Same ==
     /\ final # "unset" => dlv[epoch] = final
 (* every attempt answered/failed and nothing queued, or the timeout fired => delivered *)
 Inv_Delivered ==
-    /\ (started /\ att = {} /\ queue = <<>>) => final # "unset"
-    /\ act.name = "TimeoutFire" => final # "unset"
+    /\ (started /\ att = {} /\ queue = <<>> /\ refq = <<>>) => (final # "unset" \/ timer = "recheck")
+    /\ act.name = "TimeoutFire" => (final # "unset" \/ timer = "recheck")    \* put off by at most 3 x 10 ms (PYTHON-853)
 
 (* ---- C15: while incomplete there is a live timer ---- *)
-Inv_Armed == (started /\ final = "unset") => timer \in {"spec", "timeout"}
-Inv_TimeoutHasConn == (started /\ final = "unset") => lastConn # 0     \* _on_timeout never needs its 10 ms re-arm here
+Inv_Armed == (started /\ final = "unset") => timer \in {"spec", "timeout", "recheck"}
+(* a future without any connection is only ever waiting for one of its (at most 3) re-checks *)
+Inv_TimeoutHasConn == (started /\ final = "unset" /\ lastConn = 0) => (timer = "recheck" /\ rechecks \in 1..3)
 Completes == [](started /\ final = "unset" => <>(final # "unset"))
 
 (* ---- C16: retries do what the policy decided ---- *)
@@ -433,6 +480,9 @@ Witness_RetryCL         == cl = InitCL
 Witness_RetryAtANY      == ~(cl = 0 /\ sentLog # <<>> /\ sentLog[Len(sentLog)].cl = 0)
 Witness_NoHost          == final # "NoHostAvailable"
 Witness_NoHostAfterSend == ~(final = "NoHostAvailable" /\ sentLog # <<>>)
+Witness_BoundNotIdem    == ~(started /\ prep = "yes" /\ ~idem)
+Witness_Recheck3        == ~(act.name = "RecheckFire" /\ final = "OperationTimedOut" /\ lastConn = 0)
+Witness_RefreshRaises   == ~(act.name = "RefreshTask" /\ act.k = "raises" /\ cb[epoch] = 1)
 Witness_Unfit           == ~unfit
 Witness_TaskBeforeStore == ~(act.name = "RetryTask" /\ pend.host # 0 /\ final = "NoHostAvailable")
 Witness_SkipAll         == ~(started /\ Cardinality({h \in Hosts : errs[h] # "none"}) = NHosts)
